@@ -20,4 +20,16 @@ for _p, _s in [("C03", "C03"), ("C05", "C05"), ("C06", "C06"), ("C04", "C04"), (
     TEXT[_p] = dict(level_text=_GEN_LEVEL if _p != "C03" else _ARITH_LEVEL, level_note=_ARITH_NOTE,
                     design_ref="DESIGN.md §6 " + _s,
                     technique="TLA+ reference model; TLC exhaustive on small formats + TLC trace validation of recorded real calls at full size")
+_EXP_LEVEL = ("Exploration with an exact oracle inside the specification: directed + randomised real calls are validated step by step "
+              "by TLC; %s The small-format / sanity models are checked exhaustively by TLC.")
+TEXT["C15"] = dict(level_text=_GEN_LEVEL, level_note=_ARITH_NOTE, design_ref="DESIGN.md §6 C15",
+                   technique="TLA+ special-operand tables (UnarySpecial, PowLadder, arithmetic Sem) checked by TLC on a small format + TLC trace validation of class-representative calls")
+TEXT["C16"] = dict(level_text=_EXP_LEVEL % "exp-type results against rigorous 72-digit fixed-point enclosures of e^a, log-type results by certification (e^(r-u) <= x <= e^(r+u)), verdicts ok/reject/undecided.",
+                   level_note=_ARITH_NOTE + " The constants ln 2, ln 10 are typed digits certified by TLC ASSUMEs with the enclosure itself; MC_Encl checks the enclosure against exact rational Taylor sums. Known findings KF1-KF4 are reported, not suppressed silently.",
+                   design_ref="DESIGN.md §6 C16", technique="TLA+ enclosure oracle (Encl.tla) + TLC trace validation of recorded real calls")
+TEXT["C17"] = dict(level_text=_EXP_LEVEL % "the C17 inequality (r -+ (1/2+1e-20)u)^k <=> |d| is evaluated exactly with BigNat integers.",
+                   level_note=_ARITH_NOTE, design_ref="DESIGN.md §6 C17", technique="exact integer inequality in TLA+ (RootOK) + TLC trace validation; small-format model compares it with a native restatement")
+TEXT["C18"] = dict(level_text=_EXP_LEVEL % "the shortcut ladder is exact (PowLadder, checked exhaustively on a small format); the general path uses the enclosure of e^(y ln x) with a driver-supplied, spec-certified witness for ln x and C18's error budget.",
+                   level_note=_ARITH_NOTE + " The ln x witness is untrusted: it is certified by the enclosure before use, otherwise the step is undecided.",
+                   design_ref="DESIGN.md §6 C18", technique="TLA+ PowLadder + enclosure oracle + TLC trace validation of recorded real calls")
 NOT_APPLICABLE = []
